@@ -755,3 +755,262 @@ func c11KeepState(c *core.Ctx, root *packages.Package) {
 		c.Check(bad == token.NoPos, "C11.keepstate", "influxqlStreamingTransformGroup."+m+"#rc", bad, "influxqlStreamingTransformGroup.%s assigns the reduce context: one point that lacks the field (or carries it with another type) resets the running state — cumulativeSum restarts from zero, difference/elapsed/movingAverage lose their previous point or window and drop an output — for every sparse point in the data", m)
 	}
 }
+
+// c05Rules4 (seeds C05-11-r4, C05-12-r4).
+func c05Rules4(c *core.Ctx) {
+	c.Rule("C05.evalassert", "A4: in the expression evaluator no single-value type assertion is applied to a NodeEvaluator: which evaluator stands at an operand depends on the expression (a reference, a unary minus over one, a lambda variable wrapping one), and the assertion runs for points that lack a field — a wrong guess is a panic on the direct EvalBool path of where/alert/from")
+	if sp := c.P.Pkg("tick/stateful"); sp != nil {
+		info := sp.TypesInfo
+		n := 0
+		for _, f := range core.AllFuncs(sp) {
+			okForm := map[*ast.TypeAssertExpr]bool{}
+			ast.Inspect(f.Decl.Body, func(nd ast.Node) bool {
+				switch x := nd.(type) {
+				case *ast.AssignStmt:
+					if len(x.Lhs) == 2 && len(x.Rhs) == 1 {
+						if ta, ok := ast.Unparen(x.Rhs[0]).(*ast.TypeAssertExpr); ok {
+							okForm[ta] = true
+						}
+					}
+				case *ast.ValueSpec:
+					if len(x.Names) == 2 && len(x.Values) == 1 {
+						if ta, ok := ast.Unparen(x.Values[0]).(*ast.TypeAssertExpr); ok {
+							okForm[ta] = true
+						}
+					}
+				case *ast.TypeSwitchStmt:
+					ast.Inspect(x.Assign, func(m ast.Node) bool {
+						if ta, ok := m.(*ast.TypeAssertExpr); ok {
+							okForm[ta] = true
+						}
+						return true
+					})
+				}
+				return true
+			})
+			ast.Inspect(f.Decl.Body, func(nd ast.Node) bool {
+				ta, ok := nd.(*ast.TypeAssertExpr)
+				if !ok || ta.Type == nil {
+					return true
+				}
+				nt := core.NamedOf(info.TypeOf(ta.X))
+				if nt == nil || nt.Obj().Name() != "NodeEvaluator" || nt.Obj().Pkg() != sp.Types {
+					return true
+				}
+				n++
+				name := f.Decl.Name.Name
+				if r := core.RecvName(f.Decl); r != "" {
+					name = r + "." + name
+				}
+				c.Check(okForm[ta], "C05.evalassert", name+"#"+types.ExprString(ta.Type), ta.Pos(), "%s asserts a NodeEvaluator to be %s in the single-value form: an operand of type missing need not be a reference node (-\"value\", a lambda variable) — for a point that lacks the field the assertion panics, where/alert/from call EvalBool directly, and one such point ends the task", name, types.ExprString(ta.Type))
+				return true
+			})
+		}
+		c.Floor("C05.evalassert", "type assertions on NodeEvaluator values", n, 2)
+	}
+	c.Rule("C05.udf.abortwait", "A6: UDFNode.abortedCallback closes the node's abort signal and then waits for the writer goroutine (WaitGroup.Wait) on every path: the UDF server closes its input channel as soon as the callback returns, and the writer's select has both arms ready otherwise — a send on the closed channel on a goroutine without recover")
+	root := c.P.Pkg("")
+	if root == nil {
+		return
+	}
+	info := root.TypesInfo
+	fn := c.Need("C05.udf.abortwait", "", "UDFNode", "abortedCallback")
+	if fn == nil {
+		return
+	}
+	c.Analysed(fn)
+	eng := &an.Engine{Prog: c.P,
+		TrackCall: func(call *ast.CallExpr, callee *types.Func) string {
+			if core.IsBuiltin(info, call, "close") && len(call.Args) == 1 && an.FieldSel(info, call.Args[0], "UDFNode", "aborted") {
+				return "close"
+			}
+			if callee != nil && callee.Name() == "Wait" {
+				if sel, ok := call.Fun.(*ast.SelectorExpr); ok && an.FieldSel(info, sel.X, "UDFNode", "wg") {
+					return "wait"
+				}
+			}
+			return ""
+		}}
+	paths, err := eng.Run(fn)
+	if err != nil {
+		c.Undecided("C05.udf.abortwait", "UDFNode.abortedCallback", fn.Decl.Pos(), "%v", err)
+		return
+	}
+	good := len(paths) > 0
+	for _, p := range paths {
+		if p.Exit == "panic" {
+			continue
+		}
+		if !(p.Has("close") && p.Has("wait") && p.Index("close") < p.Index("wait")) {
+			good = false
+		}
+	}
+	c.Check(good, "C05.udf.abortwait", "UDFNode.abortedCallback#wait-for-writer", fn.Decl.Pos(), "abortedCallback returns without having waited for the node's writer goroutine behind the abort signal: udf.Server.abort runs the callback and then closes the input channel; a writer that reaches its select afterwards has both the send and the abort arm ready, Go picks at random, and the send on the closed channel panics on a goroutine without recover — a UDF that answers with an error (or dies) while the node is idle ends the process at the next point")
+}
+
+// c13Rules4 (seeds C13-10-r4, C13-11-r4).
+func c13Rules4(c *core.Ctx) {
+	c.Rule("C13.numfmt", "A4: number literals are printed with strconv.FormatFloat(v, 'f', -1, 64): the shortest text that reads back as the same float64 (precision -1) — a bit size of 32 prints the shortest text for a float32, and the formatted script holds another number")
+	if ap := c.P.Pkg("tick/ast"); ap != nil {
+		info := ap.TypesInfo
+		n := 0
+		for _, f := range core.AllFuncs(ap) {
+			ast.Inspect(f.Decl.Body, func(nd ast.Node) bool {
+				call, ok := nd.(*ast.CallExpr)
+				if !ok || len(call.Args) != 4 {
+					return true
+				}
+				cal := core.Callee(info, call)
+				if cal == nil || cal.Pkg() == nil || cal.Pkg().Path() != "strconv" || cal.Name() != "FormatFloat" {
+					return true
+				}
+				n++
+				c.Analysed(f)
+				name := f.Decl.Name.Name
+				if r := core.RecvName(f.Decl); r != "" {
+					name = r + "." + name
+				}
+				var got []string
+				for _, a := range call.Args[1:] {
+					g := "?"
+					if tv, ok := info.Types[a]; ok && tv.Value != nil {
+						g = constant.ToInt(tv.Value).ExactString()
+					}
+					got = append(got, g)
+				}
+				c.Check(len(got) == 3 && got[0] == "102" && got[1] == "-1" && got[2] == "64", "C13.numfmt", name+"#FormatFloat", call.Pos(), "%s prints a float with the format arguments %v; ('f', -1, 64) = [102 -1 64] is the shortest text that reads back as the same float64 — with bit size 32, 0.123456789 is written as 0.12345679 and 16777217.0 as 16777216.0: formatting a script changes its thresholds silently", name, got)
+				return true
+			})
+		}
+		c.Floor("C13.numfmt", "FormatFloat calls in tick/ast", n, 1)
+	} else {
+		c.Note("C13.numfmt: tick/ast is not loaded in this run")
+	}
+	c.Rule("C13.quietplace", "A7: the function that adds the quiet property behind a node's own function descends only through property chains (Operator == TokenDot): a node attached with @ (a UDF) or | ends the descent, otherwise the property is rendered on the parent node")
+	tp := c.P.Pkg("pipeline/tick")
+	if tp == nil {
+		c.Note("C13.quietplace: pipeline/tick is not loaded in this run")
+		return
+	}
+	info := tp.TypesInfo
+	for _, f := range core.AllFuncs(tp) {
+		emits := false
+		ast.Inspect(f.Decl.Body, func(nd ast.Node) bool {
+			if kv, ok := nd.(*ast.KeyValueExpr); ok {
+				if k, ok := kv.Key.(*ast.Ident); ok && k.Name == "Func" {
+					if tv, ok := info.Types[kv.Value]; ok && tv.Value != nil && tv.Value.Kind() == constant.String && constant.StringVal(tv.Value) == "quiet" {
+						emits = true
+					}
+				}
+			}
+			return true
+		})
+		fo, _ := info.Defs[f.Decl.Name].(*types.Func)
+		if !emits || fo == nil {
+			continue
+		}
+		// the recursive descent and the condition it stands under
+		var cond ast.Expr
+		ast.Inspect(f.Decl.Body, func(nd ast.Node) bool {
+			is, ok := nd.(*ast.IfStmt)
+			if !ok {
+				return true
+			}
+			rec := false
+			ast.Inspect(is.Body, func(m ast.Node) bool {
+				if call, ok := m.(*ast.CallExpr); ok && core.Callee(info, call) == fo {
+					rec = true
+				}
+				return true
+			})
+			if rec {
+				cond = is.Cond
+			}
+			return true
+		})
+		if cond == nil {
+			continue // no descent: the property is appended at the end
+		}
+		c.Analysed(f)
+		// a conjunct `<x>.Operator == ast.TokenDot`
+		okk := false
+		var walk func(e ast.Expr)
+		walk = func(e ast.Expr) {
+			e = ast.Unparen(e)
+			b, ok := e.(*ast.BinaryExpr)
+			if !ok {
+				return
+			}
+			if b.Op == token.LAND {
+				walk(b.X)
+				walk(b.Y)
+				return
+			}
+			if b.Op == token.EQL {
+				l, r := types.ExprString(b.X), types.ExprString(b.Y)
+				if (strings.HasSuffix(l, ".Operator") && strings.HasSuffix(r, "TokenDot")) || (strings.HasSuffix(r, ".Operator") && strings.HasSuffix(l, "TokenDot")) {
+					okk = true
+				}
+			}
+		}
+		walk(cond)
+		c.Check(okk, "C13.quietplace", f.Decl.Name.Name+"#descent", cond.Pos(), "%s descends to place .quiet() under the condition %s, not only through property chains (Operator == ast.TokenDot): a UDF node is attached with @ — the descent walks through the UDF's own function into its parent, and `…|from()@delorean().quiet()` is rendered as `|from().quiet()@delorean()`: the property moves to another node", f.Decl.Name.Name, types.ExprString(cond))
+	}
+}
+
+// c07LoopbackErr (seed C07-12-r4): the loopback node is an output. The only error its write returns is ErrTaskMasterClosed, once a
+// clean shutdown has closed the ingest path; a node that returns it fails, aborts its parent edge, the abort cascades to the
+// source and a sibling output never gets the backlog that is still upstream. A write error is reported, never returned.
+func c07LoopbackErr(c *core.Ctx, root *packages.Package) {
+	c.Rule("C07.loopbackerr", "A1 (sibling agreement): KapacitorLoopbackNode.Point and .BatchPoint report a failed WriteKapacitorPoint and return nil on every path: the write fails exactly during a clean shutdown, and a failing output aborts the edges it shares with its siblings")
+	info := root.TypesInfo
+	n := 0
+	for _, m := range []string{"Point", "BatchPoint"} {
+		fn := c.P.FindFunc("", "KapacitorLoopbackNode", m)
+		if fn == nil {
+			continue
+		}
+		n++
+		eng := &an.Engine{Prog: c.P,
+			TrackCall: func(call *ast.CallExpr, callee *types.Func) string {
+				if callee != nil && callee.Name() == "WriteKapacitorPoint" {
+					return "write"
+				}
+				return ""
+			},
+			Classify: func(a an.Atom) (string, bool) {
+				if k, ok := an.ErrNilAtom(info, a); ok && strings.Contains(k, "WriteKapacitorPoint(") {
+					return "werr", true
+				}
+				return "", false
+			}}
+		paths, err := eng.Run(fn)
+		if err != nil {
+			c.Undecided("C07.loopbackerr", "KapacitorLoopbackNode."+m, fn.Decl.Pos(), "%v", err)
+			continue
+		}
+		good, seen := true, false
+		for _, p := range paths {
+			if !p.Has("write") || p.Exit == "panic" {
+				continue
+			}
+			seen = true
+			v, decided := p.Assign()["werr"]
+			last := ""
+			if len(p.Rets) > 0 {
+				last = p.Rets[len(p.Rets)-1]
+			}
+			if last != "nil" && (!decided || v) {
+				good = false
+				c.Fail("C07.loopbackerr", "KapacitorLoopbackNode."+m+"#write-error", p.RetPos, "KapacitorLoopbackNode.%s returns an error on a path where the loopback write failed (path condition: %s): WriteKapacitorPoint fails with ErrTaskMasterClosed as soon as a clean shutdown has closed the ingest path — the node fails, node.start aborts its parent edge, the shared from() fails too, and a sibling influxDBOut never receives the acknowledged backlog that is still upstream, while Close returns nil", m, p.Cond())
+				break
+			}
+		}
+		if !seen {
+			c.Undecided("C07.loopbackerr", "KapacitorLoopbackNode."+m, fn.Decl.Pos(), "no path writes")
+		} else if good {
+			c.Ok("C07.loopbackerr", "KapacitorLoopbackNode."+m+"#write-error")
+		}
+	}
+	c.Floor("C07.loopbackerr", "loopback write methods", n, 2)
+}
